@@ -72,9 +72,6 @@ func H_C15_ids() {
 		verif.Cover("refused")
 		verif.Assert(!wellFormed(p), "payload-with-distinct-supported-identifiers-is-accepted")
 	}
-	// the constructor applies the same rule
-	_, cerr := core.NewPayload(f, p.PreActions...)
-	verif.Assert((cerr == nil) == (err == nil), "constructor-agrees-with-validation")
 }
 
 // H_C15_parse: the root-key gate, the round trip of constructor-built payloads, and purity of parsing.
